@@ -276,7 +276,7 @@ def run(ctx):
         "list in that order; C03.e RT_TIMES throws std::logic_error exactly when high < low and before any effect; "
         "C03.g the public queries forward to the handler's predicates.")
     ctx.assumptions = ["count <= max is maintained by C03.d (rows with count > max are don't-care for is_saturated)"]
-    ctx.not_decided = ["the saturated-match listing of the no-match report is decided under C15.c"]
+    ctx.not_decided = []
     units = []
     nt = nr = 0
     for tu in ctx.units(lambda n: n.startswith("core") or n.startswith("repo_ct") or n.startswith("coro")):
@@ -287,6 +287,8 @@ def run(ctx):
         nr += c03e(ctx, tu)
         c03g(ctx, tu)
         protocol.report(ctx, tu, lambda r: r in ("C03.d", "C03.b"))
+        from rules import C15
+        C15.c15c(ctx, tu)    # C03.f: a call beyond the upper bound is reported naming the saturated expectation
         units.append({"unit": tu.name, "functions": len(tu.fns)})
     ctx.floor("C03.b TIMES instantiations", nt, 4)
     ctx.floor("C03.e RT_TIMES instantiations", nr, 2)
